@@ -291,6 +291,15 @@ fn run_setters(i: usize, sc: &Scenario, maps: &Maps, out: &mut Vec<Value>, check
         if own != via {
             bad("perf_setters_vs_difficulty_builder", mode, format!("{:?}", diff_from_abs(&sc.perf[mode]).inspect()), "builders differ".into());
         }
+        // the settings a mode documents as irrelevant must not reach ANY of its calculators: difficulty, strains, gradual
+        {
+            let relevant = diff_from_abs_for(&sc.d, mode);
+            let a = guarded(|| format!("{:?}|{:?}|{:?}", relevant.calculate(map), relevant.strains(map), rosu_pp::GradualDifficulty::new(relevant.clone(), map).last()));
+            let b = guarded(|| format!("{:?}|{:?}|{:?}", d.calculate(map), d.strains(map), rosu_pp::GradualDifficulty::new(d.clone(), map).last()));
+            if a != b {
+                bad("irrelevant_setter_changes_difficulty_strains_or_gradual", mode, format!("{a:?}").chars().take(400).collect(), format!("{b:?}").chars().take(400).collect());
+            }
+        }
         for k in 0..2 {
             let a = guarded(|| dbg_perf(&score(sc.calls.iter().fold(Performance::new(map), apply_perf), k).calculate()));
             // handing over a Difficulty with the same setters applied (all of them, also the ones the mode ignores)
